@@ -23,6 +23,19 @@ def real_api(schema, cfg, doc, update, api):
     except Exception as e:
         return {"r": "construct-raise", "exn": type(e).__name__, "site": vrun.innermost_cerberus_frame(e)}
     d = copy.deepcopy(doc)
+    # every second case is run on a USED validator: the same document is processed once before, with the opposite
+    # flags -- what an instance processed before must not show in the outcome (a deterministic choice per case)
+    if (len(repr(doc)) + len(repr(schema))) % 2:
+        try:
+            if api == "normalized":
+                v.validate(copy.deepcopy(doc), update=not update)
+            else:
+                v.normalized(copy.deepcopy(doc))
+        except Exception:
+            try:
+                v = make_validator(copy.deepcopy(schema), copy.deepcopy(cfg))
+            except Exception:
+                pass
     try:
         if api == "validate":
             ok = v.validate(d, update=update)
